@@ -134,7 +134,7 @@ def run(sid, props, tier, in_repo=False):
         if rc != 0:
             print("patch does not apply:", out)
             return {}
-        env = dict(os.environ, VERIF_REPO=str(wt), VERIF_TIER=tier)
+        env = dict(os.environ, VERIF_REPO=str(wt), VERIF_TIER=tier, VERIF_EVID="/tmp/seeded_evid", VERIF_OUT=f"/tmp/seeded_out/{sid}")
         for p in props:
             t0 = time.time()
             rc, out = sh([str(ROOT / "check"), p, "--tier", tier], cwd=ROOT, env=env, timeout=7200)
